@@ -61,7 +61,7 @@ Proof. vm_compute. split; reflexivity. Qed.
 (* ------------------------------------------------------------------------------------------------------
    Added in build session 4 (statements re-stated from the proof files by harness tooling; each is closed by
    exact). *)
-From SplipyModel Require Import Proofs.SeamContinuity Proofs.MakePeriodicKnots Transfer.ParamObj Transfer.ParamOps Transfer.ParamOps2.
+From SplipyModel Require Import Proofs.SeamContinuity Proofs.MakePeriodicKnots Proofs.PeriodicInsert Transfer.ParamObj Transfer.ParamOps Transfer.ParamOps2.
 Open Scope R_scope.
 Theorem C08_seam_derivatives :
   forall k : nat -> R,
@@ -228,4 +228,64 @@ Theorem C08_executed_is_proved_lower_periodic :
          resmap objQ2R (obj_lower_periodic fuel o per1_target d) = obj_lower_periodic fuel (objQ2R o) per1_target d.
 Proof. exact @obj_lower_periodic_transfer. Qed.
 Print Assumptions C08_executed_is_proved_lower_periodic.
+
+Theorem C08_lower_periodic_step_preserves_map :
+  forall (k : list R) (p per1 n : nat) (T : R),
+         per_canon k p per1 n T ->
+         forall (dim c : nat) (side : bool) (t : R) (rows : list (list R)) (d : nat) (cps : list (list R)),
+         after_start side (kn k (p - 1)) t ->
+         before_end side t (kn k (n + per1)) ->
+         (d < length rows)%nat ->
+         (c < dim)%nat ->
+         nth d rows [] = ref_row side k p per1 0 t ->
+         net_ok dim rows cps ->
+         (0 < prodl (map (length (A:=R)) rows))%nat ->
+         let rows1 := upd rows d (ref_row side (knew_model k p per1 (kn k (p - 1))) p per1 0 t) in
+         let cps1 :=
+           apply_dir dim (map (length (A:=R)) rows) d
+             (mat_of_writes (n + 1) n (insert_writes k p n (py_bisect_right k (kn k (p - 1))) (kn k (p - 1)))) cps in
+         let rows2 := upd rows1 d (ref_row side (tl (knew_model k p per1 (kn k (p - 1)))) p (per1 - 1) 0 t) in
+         let cps2 := apply_dir dim (map (length (A:=R)) rows1) d (roll_matrix (n + 1) 1) cps1 in
+         coord c (teval dim rows2 cps2) = coord c (teval dim rows cps).
+Proof. exact @lower_periodic_step_preserves_map. Qed.
+Print Assumptions C08_lower_periodic_step_preserves_map.
+
+Theorem C08_lower_periodic_step :
+  forall (k : list R) (p per1 n : nat) (T : R),
+         per_canon k p per1 n T ->
+         forall (o : obj R) (d fuel target : nat),
+         nth d (o_bases o) {| b_order := 0; b_knots := []; b_per1 := 0 |} =
+         {| b_order := p; b_knots := k; b_per1 := per1 |} ->
+         (target < per1)%nat ->
+         let o1 :=
+           {|
+             o_bases :=
+               upd (o_bases o) d {| b_order := p; b_knots := knew_model k p per1 (kn k (p - 1)); b_per1 := per1 |};
+             o_cps :=
+               apply_dir (o_ncomp o) (o_shape o) d
+                 (mat_of_writes (n + 1) n (insert_writes k p n (py_bisect_right k (kn k (p - 1))) (kn k (p - 1))))
+                 (o_cps o);
+             o_dim := o_dim o;
+             o_rat := o_rat o
+           |} in
+         obj_lower_periodic (S fuel) o target d =
+         obj_lower_periodic fuel (obj_along o1 d (lower_step_basis k p per1) (roll_matrix (n + 1) 1)) target d.
+Proof. exact @obj_lower_periodic_step. Qed.
+Print Assumptions C08_lower_periodic_step.
+
+Theorem C08_lower_periodic_step_canonical :
+  forall (k : list R) (p per1 n : nat) (T : R),
+         per_canon k p per1 n T ->
+         (2 <= per1)%nat -> per_canon (tl (knew_model k p per1 (kn k (p - 1)))) p (per1 - 1) (n + 1) T.
+Proof. exact @lower_step_canon. Qed.
+Print Assumptions C08_lower_periodic_step_canonical.
+
+Theorem C08_roll_drop :
+  forall (k : list R) (p per1 n : nat) (T : R),
+         per_canon k p per1 n T ->
+         let kk :=
+           b_knots (basis_roll {| b_order := p; b_knots := knew_model k p per1 (kn k (p - 1)); b_per1 := per1 |} 1) in
+         firstn (length kk - 1) kk = tl (knew_model k p per1 (kn k (p - 1))).
+Proof. exact @roll_drop. Qed.
+Print Assumptions C08_roll_drop.
 
